@@ -6,7 +6,13 @@
 (* of c; "sampling": a byte-level mutant of such an input), the observed   *)
 (* outcome in {served, dropped, child_died, hang}, sentinel_answered, and  *)
 (* the structural signature of a crash / hang.  Records are independent    *)
-(* and visited as a 16-ary tree.                                           *)
+(* and visited as a 16-ary tree.  A record of a client history             *)
+(* (c.il = "yes") stands for ALL calls of the history and the sentinel     *)
+(* call on the same client value: child_died / hang if any of them ended   *)
+(* so; a record whose datagram has a burst (g.bu) for the burst, the       *)
+(* crafted datagram and the sentinel.  cls "loaded": a history during      *)
+(* which a call ran into its deadline although every request had been      *)
+(* answered (busy machine) -- judged by the monitor, not by strict.        *)
 (*   monitor (RobustTrace_mon): the property section of C08 on the         *)
 (*       recorded behaviour -- NeverDead, Progress, SentinelServed.        *)
 (*   strict (RobustTrace_strict): the observed outcome is one the          *)
@@ -18,13 +24,13 @@ EXTENDS Integers, Sequences, FiniteSets, TLC, Json
 VARIABLE l
 
 Fa == INSTANCE Robust WITH pc <- "Idle", alive <- TRUE, spin <- FALSE, c <- 0, g <- 0, sent <- "none", k <- 0, tick <- 0,
-        Kinds <- {}, MaxExt <- 0, MaxExtCli <- 0, MaxKe <- 0, MaxCases <- 0, Wide <- TRUE, ScDev <- 99,
+        Kinds <- {}, MaxExt <- 0, MaxExtCli <- 0, MaxKe <- 0, MaxCases <- 0, Wide <- TRUE, ScDev <- 99, MaxHist <- 0, Bursts <- {"vn", "vk", "mix"},
         ExtLenZeroLoops <- TRUE, NonceLenUnchecked <- TRUE, CookieDecodeUnchecked <- TRUE,
         PacketOverflowUnchecked <- TRUE, ShortUniqueIdEchoed <- TRUE, CsptpShortDatagram <- TRUE,
         ScionReverseUnchecked <- TRUE, ScionAddrLenUnchecked <- TRUE, ScionAuthOptUnchecked <- TRUE, ScionMacErrPanics <- TRUE,
         ScionTsOptUnchecked <- TRUE, ScionTsOptTrusted <- TRUE, CmsgLenUnchecked <- TRUE
 Rp == INSTANCE Robust WITH pc <- "Idle", alive <- TRUE, spin <- FALSE, c <- 0, g <- 0, sent <- "none", k <- 0, tick <- 0,
-        Kinds <- {}, MaxExt <- 0, MaxExtCli <- 0, MaxKe <- 0, MaxCases <- 0, Wide <- TRUE, ScDev <- 99,
+        Kinds <- {}, MaxExt <- 0, MaxExtCli <- 0, MaxKe <- 0, MaxCases <- 0, Wide <- TRUE, ScDev <- 99, MaxHist <- 0, Bursts <- {"vn", "vk", "mix"},
         ExtLenZeroLoops <- FALSE, NonceLenUnchecked <- FALSE, CookieDecodeUnchecked <- FALSE,
         PacketOverflowUnchecked <- FALSE, ShortUniqueIdEchoed <- FALSE, CsptpShortDatagram <- FALSE,
         ScionReverseUnchecked <- FALSE, ScionAddrLenUnchecked <- FALSE, ScionAuthOptUnchecked <- FALSE, ScionMacErrPanics <- FALSE,
@@ -54,8 +60,14 @@ Agrees(obs, pred) ==
   \/ obs = "dropped" /\ pred = "dropped"
   \/ obs = "child_died" /\ pred \in {"dead", "hangoom"}
   \/ obs = "hang" /\ pred \in {"hang", "hangoom"}
-PredOuts == {p[1] : p \in Fa!Predicted(R.c) \cup Rp!Predicted(R.c)}
-SExplained == (l > 0 /\ R.cls = "abstract") => \E p \in PredOuts : Agrees(R.outcome, p)
+PredFinals == Fa!Finals(R.c) \cup Rp!Finals(R.c)
+\* a history (R.c.il = "yes"): what the harness saw of it -- the kind of every request (hq), the number of
+\* requests (hn) and the result (hr) of every call, sentinel excluded -- is what the transition function gives
+HistAgrees(s) == /\ Fa!HistQ(s.c.hs) = R.hq
+                 /\ Fa!HistCallLens(s.c.hs) = R.hn
+                 /\ Fa!HistCallRes(s.c.hs) = R.hr
+SExplained == (l > 0 /\ R.cls = "abstract") =>
+                \E s \in PredFinals : Agrees(R.outcome, s.c.out) /\ (R.c.il = "yes" => HistAgrees(s))
 \* the faithful specification alone (information: which records are explained only by the repaired one)
 SFaithful == (l > 0 /\ R.cls = "abstract") => \E p \in Fa!Predicted(R.c) : Agrees(R.outcome, p[1])
 =============================================================================
